@@ -96,6 +96,9 @@ pub struct World {
     pub restarts: u32,
     /// the node under test panicked during an operation: the process is dead, whoever holds the
     /// world mutably restarts it (what a supervisor does) before the next event
+    /// C16: per (open message, party) the lottery indexes its recorded, valid signature contributed
+    /// when last looked at (a recorded contribution must not shrink)
+    pub recorded_indexes: RefCell<BTreeMap<(String, String), BTreeSet<u64>>>,
     pub needs_restart: Cell<bool>,
     pub panics: Cell<u32>,
     /// configuration variant the running node was started with (see `protocol_parameters_variant`)
@@ -272,6 +275,7 @@ impl World {
             registered_in_epoch: RefCell::new(BTreeMap::new()),
             cert_order: RefCell::new(vec![]),
             restarts: 0,
+            recorded_indexes: RefCell::new(BTreeMap::new()),
             needs_restart: Cell::new(false),
             panics: Cell::new(0),
             cfg_variant: 0,
